@@ -441,6 +441,162 @@ def check_midcall(run: lib.Run, mod) -> None:
                                                           "during": first, "afterwards": later, "fresh_source": fresh, "old_tag": old_tag})
 
 
+def check_overlap(run: lib.Run, mod) -> None:
+    """TWO callers on ONE source: caller A is stopped before/after each file-system access of its etag(); while it is stopped the file is
+    replaced (other content, size and mtime) and caller B makes a complete etag() call on the same source object — its call STARTS
+    after the replacement has finished and nothing changes the file afterwards, so it is an observation of the new content: it must
+    report the tag a brand-new source computes (and so differ from the old content's tag), whatever A is in the middle of.  If B cannot
+    finish while A is stopped (it waits for A: a lock), A is resumed first — B's call still started after the replacement.  The
+    observations after both calls are judged like check_midcall's.  Only thread A passes through the hooks."""
+    import builtins
+    import types
+    ext = ".json"
+    for mt in (False, True):
+        with tempfile.TemporaryDirectory(prefix="rbacx-verif-c16-") as d:
+            path = os.path.join(d, TARGET[ext])
+
+            def put(text, ns):
+                with builtins.open(path, "wb") as f:
+                    f.write(text.encode())
+                os.utime(path, ns=(BASE_NS + ns, BASE_NS + ns))
+
+            def overlapped(src, stop_at, when):
+                """→ (A's result, B's result or None when A never reached the stop, number of accesses of A, B had to wait for A)"""
+                n = [0]
+                paused, resume = threading.Event(), threading.Event()
+                a_thread: list = []
+
+                def mine():
+                    return a_thread and threading.current_thread() is a_thread[0]
+
+                def stop():
+                    paused.set()
+                    resume.wait(20)
+
+                def pre():
+                    if mine():
+                        n[0] += 1
+                        if when == "before" and n[0] == stop_at:
+                            stop()
+
+                def post():
+                    if mine() and when == "after" and n[0] == stop_at:
+                        stop()
+
+                class F:
+                    def __init__(self, f):
+                        self._f = f
+
+                    def read(self, *a):
+                        pre()
+                        r = self._f.read(*a)
+                        post()
+                        return r
+
+                    def __enter__(self):
+                        return self
+
+                    def __exit__(self, *a):
+                        pre()
+                        self._f.close()
+                        post()
+                        return False
+
+                    def __getattr__(self, k):
+                        return getattr(self._f, k)
+
+                    def __iter__(self):
+                        return iter(self._f)
+
+                def h_open(*a, **k):
+                    pre()
+                    f = builtins.open(*a, **k)
+                    post()
+                    return F(f)
+
+                def h_stat(*a, **k):
+                    pre()
+                    r = os.stat(*a, **k)
+                    post()
+                    return r
+                saved_os, had_open = mod.os, "open" in vars(mod)
+                saved_open = vars(mod).get("open")
+                ns = types.SimpleNamespace(**{k: getattr(os, k) for k in dir(os) if not k.startswith("__")})
+                ns.stat = h_stat
+                ns.path = os.path
+                mod.os, mod.open = ns, h_open
+                res: dict = {}
+
+                def call(who):
+                    try:
+                        res[who] = src.etag()
+                    except Exception as e:  # noqa: BLE001
+                        res[who] = f"<raised {type(e).__name__}>"
+                    if who == "A":
+                        paused.set()
+                try:
+                    ta = threading.Thread(target=call, args=("A",), daemon=True)
+                    a_thread.append(ta)
+                    ta.start()
+                    paused.wait(20)
+                    waited = False
+                    if "A" in res:            # A finished without reaching the stop
+                        ta.join(20)
+                        return res.get("A"), None, n[0], False
+                    put(NEW_DOC, 7)
+                    tb = threading.Thread(target=call, args=("B",), daemon=True)
+                    tb.start()
+                    tb.join(0.25)
+                    if tb.is_alive():
+                        waited = True
+                    resume.set()
+                    ta.join(20)
+                    tb.join(20)
+                    if ta.is_alive() or tb.is_alive():
+                        raise lib.CheckError("check_overlap: the two etag() callers did not finish")
+                    return res.get("A"), res.get("B"), n[0], waited
+                finally:
+                    resume.set()
+                    mod.os = saved_os
+                    if had_open:
+                        mod.open = saved_open
+                    else:
+                        del mod.open
+
+            put(OLD_DOC, 1)
+            _, _, total, _ = overlapped(mod.FilePolicySource(path, include_mtime_in_etag=mt), -1, "before")
+            put(OLD_DOC, 1)
+            old_tag = mod.FilePolicySource(path, include_mtime_in_etag=mt).etag()
+            for warm in (False, True):
+                for k in range(1, total + 1):
+                    for when in ("before", "after"):
+                        put(OLD_DOC, 1)
+                        src = mod.FilePolicySource(path, include_mtime_in_etag=mt)
+                        if warm:
+                            src.etag()
+                            os.utime(path, ns=(BASE_NS + 2, BASE_NS + 2))     # make the warm source hash again
+                        a_res, b_res, _, waited = overlapped(src, k, when)
+                        if b_res is None:
+                            run.count("overlap:stop-not-reached")
+                            continue
+                        later = [src.etag(), src.etag()]
+                        fresh = mod.FilePolicySource(path, include_mtime_in_etag=mt).etag()
+                        run.evaluations += 1
+                        run.count("overlap")
+                        if waited:
+                            run.count("overlap:second-caller-waited-for-the-first")
+                        run.nontrivial.add(f"overlap{mt}{warm}{k}{when}")
+                        if b_res != fresh or later[0] != fresh or later[1] != fresh or fresh == old_tag:
+                            run.spec_failures.append({"label": "overlap", "kind": "midcall", "ext": ext, "include_mtime": mt,
+                                                      "warm_cache": warm, "first_caller_stopped_at_access": k, "when": when,
+                                                      "accesses_of_etag": total, "second_caller_waited_for_the_first": waited,
+                                                      "what": "two callers of etag() on one FilePolicySource: while the first was stopped inside its call the "
+                                                              "file was replaced (other content, size and mtime); the second caller's etag(), started after the "
+                                                              "replacement, or the observations made afterwards do not report the tag of what is on disk",
+                                                      "first_caller": a_res, "second_caller": b_res, "afterwards": later,
+                                                      "fresh_source": fresh, "old_tag": old_tag})
+
+
 # ============================================================================= the policy path is a symbolic link
 
 
@@ -751,7 +907,7 @@ def check(run: lib.Run, audit: dict) -> int:
     run.rule = ("atomic_write: a fault at every step of the traced program (raise ×3 exception kinds, also after 0/1/half/all bytes of "
                 "f.write; os._exit in a forked child and SIGKILL in a child interpreter after every prefix) × scenarios (replace/create, "
                 "json/yaml) + provoked real errors; a reader between every two steps; reader thread vs writer thread; the file replaced before/after "
-                "every file-system access of a running etag() (cold and warm cache, both tag modes); the path as a retargeted symbolic link. "
+                "every file-system access of a running etag() (cold and warm cache, both tag modes); a second caller's complete etag() on the same source while the first is stopped at each of its accesses and the file is replaced in between; the path as a retargeted symbolic link. "
                 "file source: every history over {4 writes (same-size pairs, 2 mtimes), touch, delete, etag, load} of length ≤4 (quick) / "
                 "{6 writes, 2 touches, …} ≤5 (thorough) ending in an observation × (extension, include_mtime, write mechanism) configs + "
                 "seeded random histories of length ≤30 + directed ones. non-trivial = a fault that fired / a history with a modification "
@@ -797,7 +953,7 @@ def check(run: lib.Run, audit: dict) -> int:
     ok = ok and ok_src and ok_aw
 
     check_faults(run, mod, program)
-    for part in (check_instants, check_concurrent, check_midcall, check_symlink, lambda r, m: check_histories(r, m, scale=run.boost)):
+    for part in (check_instants, check_concurrent, check_midcall, check_overlap, check_symlink, lambda r, m: check_histories(r, m, scale=run.boost)):
         try:
             part(run, mod)
         except lib.CheckError:
